@@ -146,6 +146,17 @@ def judge_case(case):
             return dict(info, status="other", fails=fails)
         # the operators flatten same-kind operands and drop duplicates: the arguments that count are the built type's own
         actual = list(T.args)
+        if how in ("op", "func") and comb != "not":
+            # ... but they must keep the written order of the operands
+            want = []
+            for t in built:
+                parts = list(t.args) if (how == "op" and isinstance(t, LogicalType) and t.combinator == COMB[comb]) else [t]
+                for q in parts:
+                    if not any(q is w or q == w for w in want):
+                        want.append(q)
+            if len(want) != len(actual) or any(a is not w and a != w for a, w in zip(actual, want)):
+                fails.append((f"construction/{how}-does-not-keep-the-written-operand-order/{comb}",
+                              {"written": [repr(t) for t in want], "built": [repr(t) for t in actual]}))
         aligned = len(actual) == len(built if comb != "not" else built[:1]) and all(a is b for a, b in zip(actual, built))
         if not aligned:
             info["flattened_or_deduplicated"] = True
